@@ -96,6 +96,7 @@ func c02Menu(w *mintops.W) []string {
 		}
 		ops = append(ops, fmt.Sprintf("rotate|%d", f2))
 	}
+	ops = append(ops, "restart") // what is enforced must not depend on state that only lives in memory
 	return ops
 }
 
